@@ -44,14 +44,14 @@ pub fn decode_history(kind: Kind, c: &mut Cur, max_ops: usize) -> RawHistory {
         let (a, b, d) = (c.u8(), c.u8(), c.u8());
         let carrier = k & 3;
         let op = match (k >> 2, kind) {
-            (0..=40, _) => RawOp::Contrib { sel: a, which: b, v: d & 127, carrier },
+            (0..=40, _) => RawOp::Contrib { sel: a, which: b, v: d & 127, carrier, link: d.rotate_left(3) ^ a },
             (41..=44, _) => RawOp::OtherCc { sel: a, cn: b & 127, v: d & 127, carrier },
             (45..=48, _) => RawOp::OtherChannelMsg { sel: a, hi: b % 7, d1: d & 127, d2: (d >> 1) & 127, carrier },
             (49..=50, _) => RawOp::System { lo: a & 15, d1: b & 127, d2: d & 127, carrier },
             (51, _) => RawOp::Reset,
             (52..=58, Kind::Polling) => RawOp::Poll { sel: a },
             (59..=63, Kind::Polling) => RawOp::Advance { which: a & 7, free: (b as u64) << 8 | d as u64 },
-            _ => RawOp::Contrib { sel: a, which: b, v: d & 127, carrier },
+            _ => RawOp::Contrib { sel: a, which: b, v: d & 127, carrier, link: d.rotate_left(3) ^ a },
         };
         raw.push(op);
     }
